@@ -135,7 +135,7 @@ def run(ctx):
     return ctx.finish(
         rule=("well-kinded half: generated stacks (gen/zoo.py seed offset 5000: pairwise adjacency cover / all kind sequences to depth 4 + sampled depth 5) "
               "plus every member of the conversion family [affine][interpolator] order array; for each stack a program constructs from a parameter "
-              "pack (and default-constructs), makes a view (trivially copyable, <= 256 bytes, bitwise copy answers alike), looks up both forms, "
+              "pack (and default-constructs), makes a view (trivially copyable, <= 256 bytes, bitwise, copy-constructed and copy-assigned copies answer alike after the original view was zeroed and freed), looks up both forms, "
               "copy- and move-constructs, copy-assigns (incl. self), move-assigns, reads the configuration chain and rebuilds, dumps, loads, and "
               "converts (copy and move) from a compatible stack with another storage order and interpolator, and (row-major stacks) is built from a pack that ends with the extents, passed as a temporary and as a named object; every member is compiled AND run under "
               "ASan+UBSan with assertions on, and after every member the resulting field is compared with the reference interpreter.  A stack "
